@@ -14,6 +14,7 @@ CONTRACT_MODULES = [
     "contracts.burst",
     "contracts.tx",
     "contracts.purity",
+    "contracts.mbxml_num",
 ]
 
 TRUSTED_BASE = [
@@ -86,5 +87,11 @@ PROPS = {
         level_note="The history check is a bounded stand-in for 'all interleavings' (24 histories of 40/120 calls per quick run; never counted as proved). Mutable default arguments and class-level caches are covered only through it. The in-place Hamming repair is exercised on private copies (documented exception). Hytera / Motorola entry points: see C12 / C14-C16 contracts (frame clauses there).",
         explanation="frame / havoc / tripwire clauses of all contracts tagged C19 + purity.history",
         bounded_parts=[dict(what="call histories", bound="24 seeded histories x 40..120 calls per quick run (thorough: up to 400 calls), 50 entry points", contract="purity.history")],
+    ),
+    "C14": dict(
+        level_text="Proof for ALL 2^32 unsigned values and all signed values of magnitude <= 2^31-1: write_uintvar / write_sintvar on one symbolic value (the bin() model forks over the 33 bit lengths) produce the canonical shortest septet sequence, read_* returns exactly the value, the sign, and consumes exactly the written octets also when other octets follow; write_infotime on symbolic calendar fields 2000..2099 is inverted by the shift/mask decoding. Bounded (native, never counted as proved): float writers over (integer boundary set) x (k/128^p, p=1..3) both signs, latitude / longitude over a seeded grid incl. negatives and the +-90 / +-180 edges.",
+        level_note="Floats are outside the engine (bounded: 3000 + 2000 native evaluations per run). Latitude / longitude are decoded with the XML view's formula, the 4 octets read as a signed integer (as of fix 13365f5). Signed symbolic integers are a sign-magnitude model (abs, unary minus, comparison with 0, equality).",
+        explanation="contracts MBXML.uintvar / sintvar / write_infotime + bounded floatvar / latlong",
+        bounded_parts=[dict(what="ufloatvar / sfloatvar round trip", bound="3000 seeded (integer boundary, fraction) pairs per run, p = 1..3", contract="MBXML.floatvar_bounded"), dict(what="latitude / longitude", bound="2000 seeded values per run incl. edges", contract="MBXML.latlong_bounded")],
     ),
 }
